@@ -27,9 +27,9 @@ ASSUMPTIONS = {
     "C12": ["resident blocks are observed through the public cache_repr(); backing store through the public read_byte of the lower Memory"],
 }
 REQUIRED = {
-    "C03": ["reads_compared", "crossing_rejected", "readback_after_reject", "evictions", "bfs_transitions", "prog_runs_compared", "uncounted_reads", "preloaded_histories", "asm_programs_compared"],
-    "C09": ["counter_checks", "hits", "misses", "write_miss_no_allocate", "uncounted_reads", "penalty_checks_nonzero", "prog_stats_compared", "bfs_transitions", "warm_preloads_on_resident_block", "load_stats_checked"],
-    "C12": ["invariant_checks", "wt_resident_written", "wb_dirty_evictions", "bfs_transitions", "crossing_rejected", "invariant_checks_after_load", "invariant_checks_at_program_end"],
+    "C03": ["below_range_rejected", "long_history_counter_checks", "reads_compared", "crossing_rejected", "readback_after_reject", "evictions", "bfs_transitions", "prog_runs_compared", "uncounted_reads", "preloaded_histories", "asm_programs_compared"],
+    "C09": ["long_history_counter_checks", "long_history_hot_phases", "counter_checks", "hits", "misses", "write_miss_no_allocate", "uncounted_reads", "penalty_checks_nonzero", "prog_stats_compared", "bfs_transitions", "warm_preloads_on_resident_block", "load_stats_checked"],
+    "C12": ["below_range_rejected", "invariant_checks", "wt_resident_written", "wb_dirty_evictions", "bfs_transitions", "crossing_rejected", "invariant_checks_after_load", "invariant_checks_at_program_end"],
 }
 
 
